@@ -15,7 +15,10 @@ EXPLANATION = (
     'call sites); seed normalisation maps [0, 2^31-1] into [1, 2^31-1] (0 -> 1, identity otherwise); Eigen\'s '
     'rand()-based Random()/setRandom() are never called. Interval abstract interpretation of the step function (path-sensitive over its two folds, precise '
     'transfer for masks) shows that [0, 2^31-1] is an inductive invariant of the state, hence every draw '
-    'state/(2^31-1) - 0.5 lies in [-0.5, 0.5] (both components of complex draws). Does NOT decide that the split '
+    'state/(2^31-1) - 0.5 lies in [-0.5, 0.5] (both components of complex draws). '
+    'Further: every draw made by a member of the generator class advances the object\'s own state (the state argument is the field, '
+    'or a local stored back on every path); no call, constructor or arithmetic operator in the generator code has two operands '
+    'of which one modifies an object the other modifies or reads (unspecified evaluation order). Does NOT decide that the split '
     'multiplication equals 16807*s mod (2^31-1) for all 2^31-2 states, nor non-degeneracy of the state (never 0 or 2^31-1): '
     'those are number-theoretic facts that need enumeration or a bit-vector solver, a different technique.')
 ASSUMPTIONS = ['LLVM IR produced by clang 14 for the drivers represents the generator faithfully (same source, -O0)',
